@@ -222,10 +222,10 @@ func TestCheck(t *testing.T) {
 	r.Assume("attestations with Data.Slot = 20 (mod 2^32) are not generated: without ValidatorIndex they cannot be SSZ-cloned by charon (encoding defect outside this property, reported separately)")
 	r.Assume("monitor subscribers always return nil, so an error from Aggregate is never a subscriber's own error")
 	r.RacePkgs(false, "core/sigagg")
-	r.Require("published_objects_verified", 500)
-	r.Require("calls_valid_published", 300)
-	r.Require("calls_must_error_rejected", 500)
-	r.Require("calls_universal_only", 100)
+	r.Require("published_objects_verified", 2000)
+	r.Require("calls_valid_published", 1000)
+	r.Require("calls_must_error_rejected", 2000)
+	r.Require("calls_universal_only", 500)
 
 	bmock, err := beaconmock.New(ctx)
 	if err != nil {
@@ -263,7 +263,9 @@ func TestCheck(t *testing.T) {
 	for n := 3; n <= maxN; n++ {
 		th := (2*n + 2) / 3 // ceil(2n/3)
 		const dv = 3
-		seed := int(r.Seed)*100 + n
+		// low byte fixed at 16: testutil.GenerateInsecureK1Key(seed+i) feeds ecdsa.GenerateKey a constant
+		// byte (seed+i+1) and never returns when that byte is 0x00 or 0xff (e.g. VERIF_SEED=23, n=3).
+		seed := (int(r.Seed%(1<<40))*16+n)*256 + 16
 		lock, _, shares := cluster.NewForT(t, dv, th, n, seed, rand.New(rand.NewSource(int64(seed)))) //nolint:gosec // reproducible
 		env := &clusterEnv{n: n, t: th, lock: lock, shares: shares}
 		for _, v := range lock.Validators {
@@ -286,7 +288,7 @@ func TestCheck(t *testing.T) {
 	r.Set("kinds", len(kinds))
 	var validCursor [16]atomic.Uint64 // per n: round-robin over threshold subsets for valid calls
 
-	n := r.N(4000, 40000)
+	n := r.N(12000, 100000)
 	r.Cases(n, 0, func(c *kit.Case) {
 		k := kinds[c.Idx%len(kinds)]
 		env := clusters[(c.Idx/len(kinds))%len(clusters)]
